@@ -132,6 +132,7 @@ func (c *netFD) connect(ctx context.Context, la, ra syscall.Sockaddr) (rsa sysca
 
 	c.pd = newPollDesc(c.fd)
 	defer func() {
+		verifPoint(vpDialBeforeFree, c.pd.operator, c.fd)
 		// free operator to avoid leak
 		c.pd.operator.Free()
 		c.pd = nil
